@@ -343,12 +343,13 @@ func runHistory(cs caseSpec, profile bool, keepDir string) (v verdict) {
 		return v
 	}
 	// ---- second run on the same job directory
+	// Rows the first run left CLAIMED are handed out again by the second run (the queue resets them when it
+	// is opened), so the second run is quiescent only with no CLAIMED row at all. (Before that repair the
+	// harness tolerated as many CLAIMED rows as the first run had left; with rows being reset that tolerance
+	// let the second run be stopped while the outlink of /hub was still in flight - a false alarm of the
+	// thorough tier, see DESIGN 0.3a.) On a tree that strands such rows the second run now ends at its
+	// deadline and oracle (c) reports them.
 	stale := 0
-	for _, r := range rows1 {
-		if r.Status == "CLAIMED" {
-			stale++
-		}
-	}
 	hold.ReleaseIfSet()
 	spec2 := &e2e.ChildSpec{Dir: dir, Conf: c, Mode: "drain", Quiesce: true, IgnoreOutlinks: cs.Quick, StaleClaimed: stale, DeadlineS: 60, WatchdogS: 90}
 	r2, err := e2e.RunChild(spec2, e2e.RunHooks{})
